@@ -41,7 +41,7 @@ func main() {
 	}
 	runPure()
 	r := run.Rand
-	for i := 0; i < run.Scale(4000, 60000); i++ {
+	for i := 0; i < run.Scale(4000, 120000); i++ {
 		historyCase(r.U64())
 	}
 	for i := 0; i < run.Scale(4000, 100000); i++ {
@@ -50,7 +50,7 @@ func main() {
 	for i := 0; i < run.Scale(2500, 60000); i++ {
 		setCase(r.U64())
 	}
-	for i := 0; i < run.Scale(1200, 25000); i++ {
+	for i := 0; i < run.Scale(1200, 40000); i++ {
 		mixCase(r.U64())
 	}
 }
